@@ -286,8 +286,9 @@ def build(manifest):
         g = splice_loop(g, 0, OUTER)
         g = splice_loop(g, 1, INNER)
         g = splice_at(g, r'^\s*let mut idx_node_id: usize = 0;', INNER_HEAD, before=True)
-        g = splice_at(g, r'^\s*next_matching_nodes\.append\(&mut result\);', APPEND_BEFORE, before=True)
-        g = splice_at(g, r'^\s*next_matching_nodes\.append\(&mut result\);', APPEND_AFTER, before=False)
+        if re.search(r'^\s*next_matching_nodes\.append\(&mut result\);', g, re.M):      # the hint goes with the statement it is about
+            g = splice_at(g, r'^\s*next_matching_nodes\.append\(&mut result\);', APPEND_BEFORE, before=True)
+            g = splice_at(g, r'^\s*next_matching_nodes\.append\(&mut result\);', APPEND_AFTER, before=False)
         g = splice_at(g, r'^\s*idx_node_id \+= 1;', INNER_BODY_END, before=True)
         g = splice_at(g, r'^\s*matching_nodes\.clear\(\);', AFTER_INNER, before=True)
     f['find_nodes_relative_path'] = g
